@@ -398,17 +398,144 @@ def helper_oracle(case) -> core.CaseResult:
     return res
 
 
+
+# ---------------------------------------------------------------------------
+# O4: the whole chain - Tracker + stock ROMS Forcing (space and time interpolation, fractional steps) + stock
+# ROMS Grid (metric by cell, subgrid offsets).  Fields linear in x, y and t are reproduced exactly by the file
+# interpolation, so the scheme's prescription can be computed from the analytic field.
+# ---------------------------------------------------------------------------
+
+
+@st.composite
+def stock_cases(draw):
+    jm = draw(st.integers(10, 16))
+    im = draw(st.integers(10, 16))
+    sub = None
+    if draw(st.booleans()):
+        i0 = draw(st.integers(1, im - 8))
+        i1 = draw(st.integers(i0 + 7, im - 1))
+        j0 = draw(st.integers(1, jm - 8))
+        j1 = draw(st.integers(j0 + 7, jm - 1))
+        sub = [i0, i1, j0, j1]
+    gap = draw(st.integers(1, 4))
+    return dict(jm=jm, im=im, sub=sub, scheme=draw(st.sampled_from(["EF", "RK2", "RK4"])),
+                metric=draw(st.sampled_from(["uniform", "varying", "varying"])), dx0=draw(st.floats(50, 5000)),
+                dt=draw(st.sampled_from([60, 600, 3600])), disp=draw(st.floats(0.05, 0.9)), gap=gap,
+                s=draw(st.integers(0, 3)) % gap, reverse=draw(st.booleans()), npart=draw(st.sampled_from([4, 25])),
+                seed=draw(st.integers(0, 10**6)), steady=draw(st.sampled_from([False, False, True])))
+
+
+def stock_oracle(case) -> core.CaseResult:
+    from ladim.model import init_module
+
+    from vlib import e2e, roms, scen
+
+    e2e.quiet()
+    res = core.CaseResult()
+    jm, im, dt, gap, s0 = case["jm"], case["im"], case["dt"], case["gap"], case["s"]
+    rng = np.random.default_rng(case["seed"])
+    jj, ii = np.mgrid[0:jm, 0:im].astype(float)
+    dxa = np.full((jm, im), case["dx0"])
+    if case["metric"] == "varying":
+        dxa = case["dx0"] * (1 + 0.35 * np.sin(0.9 * ii + rng.uniform(0, 6)) * np.cos(0.7 * jj + rng.uniform(0, 6))
+                             + 0.2 * (ii - jj) / (im + jm))
+    G = roms.make_grid(jm, im, N=2, h="flat", hval=50.0, mask="none", dx=case["dx0"], seed=case["seed"])
+    G["pm"] = 1.0 / dxa
+    G["pn"] = 1.0 / dxa
+    # analytic field (m/s), linear in x, y, t; |u|, |v| * dt / min dx <= disp
+    a = rng.uniform(-1, 1, (2, 4))
+    if case["steady"]:
+        a[:, 3] = 0
+    L = float(max(jm, im))
+    Tspan = gap * dt
+    amp = case["disp"] * float(dxa.min()) / dt / 4.0
+
+    def f(x, y, t):
+        return (amp * (a[0, 0] + a[0, 1] * x / L + a[0, 2] * y / L + a[0, 3] * t / Tspan),
+                amp * (a[1, 0] + a[1, 1] * x / L + a[1, 2] * y / L + a[1, 3] * t / Tspan))
+
+    sgn = -1 if case["reverse"] else 1
+    T = scen.T0 + scen.S(86400)
+    ftimes = [T, T + scen.S(sgn * gap * dt)]  # frames at simulation steps 0 and gap
+    U = np.empty((2, 2, jm, im - 1))
+    V = np.empty((2, 2, jm - 1, im))
+    ju, iu = np.mgrid[0:jm, 0:im - 1].astype(float)
+    jv, iv = np.mgrid[0:jm - 1, 0:im].astype(float)
+    for k, tk in enumerate((0.0, float(Tspan))):
+        # the file holds the physical field; a reversed run feels its negative
+        U[k, :] = sgn * f(iu + 0.5, ju, tk)[0]
+        V[k, :] = sgn * f(iv, jv + 0.5, tk)[1]
+    res.cls(case["scheme"])
+    res.cls("metric_" + case["metric"])
+    res.cls("reversed" if case["reverse"] else "forward")
+    res.cls("subgrid" if case["sub"] else "full_grid")
+    i0, i1, j0, j1 = case["sub"] or [1, im - 1, 1, jm - 1]
+    n = case["npart"]
+    X = rng.uniform(i0 + 1.6, i1 - 2.6, n)
+    Y = rng.uniform(j0 + 1.6, j1 - 2.6, n)
+    with e2e.workdir() as d:
+        order = np.argsort(np.array(ftimes))
+        roms.write_roms(d / "f.nc", G, [ftimes[i] for i in order], U[order], V[order], storage="f8")
+        modules = {}
+        try:
+            modules["state"] = init_module("state", {}, modules)
+            tconf = {"start": e2e.iso(T), "stop": e2e.iso(ftimes[1]), "dt": dt}
+            if case["reverse"]:
+                tconf["time_reversal"] = True
+            modules["time"] = init_module("time", tconf, modules)
+            gconf = {"filename": str(d / "f.nc")}
+            if case["sub"]:
+                gconf["subgrid"] = list(case["sub"])
+            modules["grid"] = init_module("grid", gconf, modules)
+            modules["forcing"] = init_module("forcing", {"filename": str(d / "f.nc")}, modules)
+            modules["tracker"] = init_module("tracker", {"advection": case["scheme"]}, modules)
+            state, timer, force, tr = modules["state"], modules["time"], modules["forcing"], modules["tracker"]
+            state.append(X=X.copy(), Y=Y.copy(), Z=5.0)
+            for _ in range(s0 + 1):  # Model.update order: clock, (release), forcing, (output), tracker
+                timer.update()
+                force.update()
+            tr.update()
+            force.close()
+        except BaseException as e:  # noqa: BLE001
+            import traceback
+
+            res.fail("stock_chain_raises", f"{e!r}\n{traceback.format_exc()[-600:]}")
+            return res
+    gx, gy = np.array(state.X), np.array(state.Y)
+    dxp = dxa[np.round(Y).astype(int), np.round(X).astype(int)]
+    t0 = s0 * dt
+    preds = {k: ref_step(k, f, X, Y, t0, dt, dxp, dxp) for k in ("EF", "RK2mid", "RK2heun", "RK4")}
+
+    def dist(p):
+        return float(max(np.max(np.abs(gx - p[0])), np.max(np.abs(gy - p[1]))))
+
+    sch = case["scheme"]
+    err = dist(preds["EF"]) if sch == "EF" else (dist(preds["RK4"]) if sch == "RK4" else
+                                                 min(dist(preds["RK2mid"]), dist(preds["RK2heun"])))
+    res.check(bool(np.all(state.alive)), "stock_killed", "a particle well inside the valid region was killed")
+    res.check(err <= 1e-9, f"stock_one_step_{sch}",
+              f"{sch} through the stock forcing and grid: new position differs from the scheme's prescription by "
+              f"{err:.3g} cells (to EF {dist(preds['EF']):.3g}, RK2mid {dist(preds['RK2mid']):.3g}, RK4 {dist(preds['RK4']):.3g}); "
+              f"step {s0} of a {gap}-step frame interval, metric {case['metric']}, subgrid {case['sub']}")
+
+    def sep(p, q):
+        return float(max(np.max(np.abs(preds[p][0] - preds[q][0])), np.max(np.abs(preds[p][1] - preds[q][1]))))
+    res.nontrivial = min(sep("EF", "RK2mid"), sep("EF", "RK4")) > 1e-7
+    return res
+
+
 def shard(part, n, seed, known):
     stt = core.Stats()
     strat, orc = {"step": (step_cases(), step_oracle), "order": (order_cases(), order_oracle),
-                  "helpers": (helper_cases(), helper_oracle)}[part]
+                  "helpers": (helper_cases(), helper_oracle), "stock": (stock_cases(), stock_oracle)}[part]
     core.drive(part, strat, orc, n, seed, stt, known)
     return stt
 
 
 def run(ctx):
     jobs = []
-    for part, nq, nt, k in (("step", 2400, 60000, 8), ("order", 480, 9000, 5), ("helpers", 300, 6000, 3)):
+    for part, nq, nt, k in (("step", 2400, 60000, 6), ("order", 480, 9000, 4), ("helpers", 300, 6000, 2),
+                            ("stock", 1200, 30000, 4)):
         for i, m in enumerate(core.split(ctx.n(nq, nt), k)):
             jobs.append((part, m, core.subseed(ctx.seed, part, i), ctx.known_sigs))
     stats = core.Stats()
@@ -420,7 +547,9 @@ def run(ctx):
               "Tracker.update vs independent EF / midpoint or Heun RK2 / classical RK4 (tol 1e-9 cell); non-trivial = "
               "the three schemes' predictions differ pairwise by > 1e-7 cell. order: observed order of convergence "
               "through Tracker.update against a 64x finer RK4 reference, one-sided p >= k - 0.5; non-trivial = errors "
-              "above the 1e-10 noise floor. helpers: same for get_velocity1/2/4"),
+              "above the 1e-10 noise floor. helpers: same for get_velocity1/2/4. stock: the same one-step identity "
+              "through the stock ROMS Forcing and Grid built from generated files (fields linear in x, y and t between "
+              "two frames 1-4 steps apart, metric uniform or varying by cell, legal subgrids, forward and reversed)"),
         assumptions=["uniform metric per case (dx != dy) through a plug-in grid; no land, no rim",
                      "RK2 may be midpoint or Heun (the statement does not choose)",
                      "order accepted if either refinement (n->2n or 2n->4n) shows it; super-convergence is not a violation"],
@@ -428,4 +557,4 @@ def run(ctx):
 
 
 def replay(part, case):
-    return {"step": step_oracle, "order": order_oracle, "helpers": helper_oracle}[part](case)
+    return {"step": step_oracle, "order": order_oracle, "helpers": helper_oracle, "stock": stock_oracle}[part](case)
